@@ -83,7 +83,20 @@ def run_harness(pid, tier, seed, extra=(), timeout=3600):
 def check_property(pid, tier, seed):
     t0 = time.time()
     mod = importlib.import_module(f"contracts.{pid}")
-    meta = getattr(mod, "META", {})
+    meta = dict(getattr(mod, "META", {}))
+    try:
+        # the level texts of tools/claims.py (one source for MANIFEST and evidence): what was brought under contract after META was written
+        ns = {"claim": lambda *a, **k: None, "CLAIMS": {}}
+        src = open(os.path.join(HERE, "tools", "claims.py")).read()
+        i, j = src.index("for _pid, (_t, _n, _tech) in S4.items()"), src.index("S4_ASSUME = {")
+        exec(src[:i] + "\n" + src[j:], ns)
+        if pid in ns.get("S4", {}):
+            meta["explanation"] = (meta.get("explanation", "") + " | " + ns["S4"][pid][0]).strip(" |")
+        extra = ns.get("S4_ASSUME", {}).get(pid, [])
+        meta["assumptions"] = list(meta.get("assumptions", [])) + [a for a in extra if a not in meta.get("assumptions", [])]
+        meta["trusted_base"] = list(meta.get("trusted_base", [])) + [a for a in extra if a not in meta.get("trusted_base", [])]
+    except Exception:
+        pass
     tasks = list(getattr(mod, "TASKS", []))
     timeout = 20 if tier == "quick" else 60
     # the native evaluation of the contracts runs concurrently with VC generation and solving
